@@ -11,7 +11,14 @@ REPO="${VERIF_REPO:-/repo}"
 cd "$VERIF_DIR" || exit 2
 mkdir -p .build evidence replays
 BIN="$VERIF_DIR/.build/check.$$"
-trap 'rm -f "$BIN" "$VERIF_DIR/.build/build.$$.log"' EXIT
+MODFLAG=""
+trap 'rm -f "$BIN" "$VERIF_DIR/.build/build.$$.log" "$VERIF_DIR/.build/go.$$.mod" "$VERIF_DIR/.build/go.$$.sum"' EXIT
+if [ "$REPO" != "/repo" ]; then
+  # development aid: check another checkout (e.g. a scratch worktree with a seeded change)
+  sed "s#=> /repo#=> $REPO#" go.mod > .build/go.$$.mod
+  cp go.sum .build/go.$$.sum
+  MODFLAG="-modfile=$VERIF_DIR/.build/go.$$.mod"
+fi
 
 overlay() {
   # Map iteration order is owned through a build overlay generated from the
@@ -33,11 +40,11 @@ overlay() {
 build() {
   # the harness module replaces github.com/DataDog/sketches-go by /repo, so
   # this always compiles the repository's current working tree
-  if overlay && go build -tags verif -overlay "$OV/overlay.json" -o "$BIN" ./cmd/check 2> .build/build.$$.log; then
+  if overlay && go build $MODFLAG -tags verif -overlay "$OV/overlay.json" -o "$BIN" ./cmd/check 2> .build/build.$$.log; then
     return 0
   fi
   echo "WARNING: map iteration order is not controlled in this run (overlay unavailable); running natively" >&2
-  if ! go build -o "$BIN" ./cmd/check 2> .build/build.$$.log; then
+  if ! go build $MODFLAG -o "$BIN" ./cmd/check 2> .build/build.$$.log; then
     cat .build/build.$$.log >&2
     echo "BUILD-FAILED: the harness does not compile against the repository's working tree" >&2
     return 1
